@@ -449,9 +449,24 @@ def big_record_scripts(ctx):
     return out
 
 def c01(ctx): return check_file_property(ctx, {"C01"}, 150, 4000, extra=lambda c: residue_scripts(c, list(range(512))) + big_record_scripts(c))
+def loaded_resave_scripts(ctx, n):
+    """C03 speaks of EVERY file the library saves: objects loaded from files of other layouts (parameter section not in
+    block 2, leading zeros, sparse ids, extra blocks ...) and from the vendor files, saved again and decoded by the Spec"""
+    from . import c3dgen
+    d = run.workdir(); ctx._tmpdirs = getattr(ctx, "_tmpdirs", []) + [d]
+    out = []
+    for i in range(n):
+        seed = ctx.seed * 7919 + 500000 + i
+        path = os.path.join(d, "in%d.c3d" % i)
+        desc, _ = c3dgen.make_file(seed, path, big=(i % 41 == 40))
+        out.append((_spec_after_saves(["load %s" % path, "save @W@/s.c3d", "load @W@/s.c3d", "save @W@/s2.c3d"]), {"loaded_resave": 1, "layout_" + desc.split("_pad")[0]: 1}, "resave-%d-%s" % (seed, desc)))
+    for v in ("Vicon.c3d", "Qualisys.c3d"):
+        out.append((_spec_after_saves(["dumpmode full", "load /repo/test/c3dFiles/%s" % v, "save @W@/s.c3d"]), {"loaded_resave_vendor": 1}, "resave-" + v))
+    return out
+
 def c03(ctx):
     def extra(c):
-        return residue_scripts(c, list(range(512)))
+        return residue_scripts(c, list(range(512))) + loaded_resave_scripts(c, 60 if c.quick else 1500)
     return check_file_property(ctx, {"C03"}, 100, 2500, extra=extra)
 
 CHECKS.update({"C01": c01, "C03": c03})
